@@ -219,7 +219,16 @@ def poll_failure(how):
     return RpcFailure('unavailable')
 
 
-FAIL_HOW = ['rpc', 'garbage', 'noargs', 'keyerror', 'rpc_noargs', 'badstr', 'oserror']
+FAIL_HOW = ['rpc', 'garbage', 'bad_update', 'noargs', 'keyerror', 'rpc_noargs', 'badstr', 'oserror']
+
+
+def garbage_response(how):
+    """what the stub hands back instead of a PollResponse: nothing at all, or something that says UPDATE and carries a
+    hash but whose tracepoint list cannot even be iterated (the conversion of the response as a whole raises)"""
+    if how == 'bad_update':
+        import types
+        return types.SimpleNamespace(response_type=1, ts_nanos=7, current_hash='hash-of-garbage', response=None)
+    return None
 
 
 class Interrupt(BaseException):
@@ -379,8 +388,8 @@ class SvcBench:
         if k in ('poll', 'pollFail'):
             if k == 'poll':
                 self.channel.next = ('resp', make_response(op))
-            elif op.get('how') == 'garbage':
-                self.channel.next = ('resp', None)
+            elif op.get('how') in ('garbage', 'bad_update'):
+                self.channel.next = ('resp', garbage_response(op.get('how')))
             else:
                 self.channel.next = ('raise', Interrupt('stop') if op.get('base') else poll_failure(op.get('how')))
             n = len(self.channel.hashes)
